@@ -3,6 +3,7 @@ package main
 // Translation of contract expressions into SMT terms.
 
 import (
+	"golang.org/x/tools/go/ssa/ssautil"
 	"fmt"
 	"go/ast"
 	"go/constant"
@@ -912,6 +913,32 @@ func (vc *VC) trCall(x *ECall, env *Env) TV {
 			return vc.errTV("ifaceloc of %s", a.T)
 		}
 		return TV{T: types.Typ[types.UnsafePointer], S: sx("iptr", a.S)}
+	case "fnis":
+		// fnis(f, "name"): the function value f is a closure of the function whose name ends with name
+		a := vc.tr(x.Args[0], env)
+		nm := x.Args[1].String()
+		if es, ok := x.Args[1].(*EStr); ok {
+			nm = es.Val
+		}
+		id := -1
+		for key, fn := range vc.prog.funcs {
+			if strings.HasSuffix(key, nm) || strings.HasSuffix(fn.String(), nm) {
+				id = vc.prog.funcID(fn)
+			}
+		}
+		if id < 0 {
+			// bound-method wrappers and other synthetic functions are not in the index: search all
+			for fn := range ssautil.AllFunctions(vc.prog.ssa) {
+				if strings.HasSuffix(fn.String(), nm) {
+					id = vc.prog.funcID(fn)
+				}
+			}
+		}
+		if id < 0 {
+			return vc.errTV("fnis: no function named %s", nm)
+		}
+		vc.heapKeySort("#fnid", types.Typ[types.Int])
+		return TV{T: B, S: eq(vc.envHeapRead(env, "#fnid", types.Typ[types.Int], a.S), vc.ar.ix(int64(id)))}
 	case "waitedfor":
 		// waitedfor(ch): this activation has completed a blocking receive from ch
 		a := vc.tr(x.Args[0], env)
